@@ -535,6 +535,25 @@ func (h *harness) judge(out *sim.Outcome) *simrt.Violation {
 					}
 					probe("majority:decided-before-soft-deadline")
 				}
+				// the block root strategy breaks a tie between equally frequent roots by the slots of their blocks
+				// (the later block wins); both slots are known to the cache here
+				if ad.name == "beaconblockroot-majority" {
+					qOf := map[string]int{}
+					for _, r := range rs {
+						if isValid(r) {
+							qOf[r.key] = r.pp.Q
+						}
+					}
+					for _, k := range env.SortedKeys(cntLE) {
+						if k == cr.key || cntLE[k] != cntLT[k] || cntLE[cr.key] != cntLT[cr.key] || cntLE[k] != cntLE[cr.key] {
+							continue
+						}
+						if qOf[cr.key] > 0 && qOf[k] > qOf[cr.key] {
+							add("majority-tie-not-broken-by-block-slot", "%s: returned %s (block slot %d) although %s was reported as often (%d times) and is the root of a later block (slot %d)", desc, cr.key, h.slot-5+uint64(qOf[cr.key]), k, cntLE[k], h.slot-5+uint64(qOf[k]))
+						}
+						probe("majority:tie-between-known-roots")
+					}
+				}
 				probe("majority:value")
 				if cntLE[cr.key] >= 2 {
 					probe("majority:value-reported>=2")
@@ -598,6 +617,34 @@ func OddScenarios(prop string) []*sim.Scenario {
 				} else if !strings.HasPrefix(o.Violation.Kind, "harness-") {
 					o.Violation = nil
 				}
+			}
+			return o
+		}})
+	}
+	return out
+}
+
+// SlotScenarios returns, for property prop (C18), the strategies that rank answers by the slot of a block root
+// (attestation data 'best', block root 'latest'): a verdict that the returned answer is dominated by another
+// node's answer there means the strategy took a root for a block of another slot than the cache says.  Every
+// other verdict belongs to C07 and is dropped.
+func SlotScenarios(prop string) []*sim.Scenario {
+	var out []*sim.Scenario
+	for _, ad := range adapters {
+		if ad.name != "attestationdata-best" && ad.name != "beaconblockroot-latest" && ad.name != "beaconblockroot-majority" {
+			continue
+		}
+		name := ad.name
+		inner := execFor(ad)
+		out = append(out, &sim.Scenario{Property: prop, Name: "strategy-" + name, Gen: genFor(ad), Weight: 1, Exec: func(plan any, sched *simrt.Tape) *sim.Outcome {
+			o := inner(plan, sched)
+			if o == nil || o.Violation == nil || strings.HasPrefix(o.Violation.Kind, "harness-") {
+				return o
+			}
+			if strings.HasSuffix(o.Violation.Kind, "-dominated") || strings.HasSuffix(o.Violation.Kind, "-not-broken-by-block-slot") {
+				o.Violation.Kind = prop + "/strategy-ranks-root-by-another-slot/" + name
+			} else {
+				o.Violation = nil
 			}
 			return o
 		}})
